@@ -34,6 +34,18 @@ try:
     ap = run(["git", "-C", wt, "apply", patch])
     res["applies"] = ap.returncode == 0
     if not res["applies"]:
+        # the tree moved on (fix: commits) since the change was written: re-port it with fuzz, keep the re-ported diff
+        pp = run(["patch", "-p1", "--fuzz=3", "--no-backup-if-mismatch", "-i", patch], cwd=wt)
+        if pp.returncode == 0:
+            d = run(["git", "-C", wt, "diff"])
+            patch = os.path.join(tempfile.mkdtemp(prefix="seedpatch_", dir="/tmp"), "patch.diff")
+            open(patch, "w").write(d.stdout)
+            res["applies"] = True
+            res["reported"] = "re-ported onto the current tree with patch --fuzz=3"
+            meta["reported"] = res["reported"]
+        else:
+            run(["git", "-C", wt, "checkout", "--", "."])
+    if not res["applies"]:
         res["error"] = ap.stderr[-500:]
     else:
         b = run(["/venv/bin/python", os.path.join(VERIF, "tools", "baseline_check.py"), wt], timeout=1800)
